@@ -188,7 +188,7 @@ structure St where
   inContract : Bool := true
   caseId : String := ""
 
-def isMut (op : List String) : Bool := ["N", "DS", "A", "AA", "D", "F"].contains (op.headD "")
+def isMut (op : List String) : Bool := ["N", "DS", "A", "AA", "D", "F", "PT"].contains (op.headD "")
 
 def sizeBucket (n : Nat) : String :=
   if n ≤ 3 then "1-3" else if n ≤ 15 then "4-15" else if n ≤ 60 then "16-60" else if n ≤ 200 then "61-200" else "200+"
@@ -205,6 +205,19 @@ def processLine (st : St) (line : String) : IO St := do
       | ret :: fh :: len :: _k :: rowToks =>
         let rows := (chunks10 (rowToks.length + 1) rowToks).filterMap parseRow
         let after := applyRows t (nat! fh) (nat! len) rows
+        if op.head? = some "PT" then
+          -- a table loaded by the real parser (a client of the tree operations): the parser is not
+          -- replayed; the implementation's pool is judged as it stands after the load
+          st := { st with stats := st.stats.bump s!"parse_{ret}" }
+          if ret = "panic" then
+            st := { st with inContract := false, stats := st.stats.bump "impl_panic" }
+          else if st.inContract then
+            match wfWhy after with
+            | some why =>
+              IO.println s!"PROPFAIL case={st.caseId} clause={why} feature=parser-history-{ret} op={(opS.take 200).toString} impl={(obsS.take 160).toString}"
+              st := { st with inContract := false, stats := st.stats.bump "propfail" }
+            | none => st := { st with stats := st.stats.bump "parse_wf_checked" }
+          return { st with impl := after }
         -- 1. model vs implementation
         let (mret, mpost) := modelMut t op
         if mret ≠ ret then
